@@ -9,6 +9,7 @@ import ast
 from .. import e1
 from ..astx import self_attr, walk_no_nested, dotted, call_name, parent
 from ..core import norm
+from .. import pat
 
 
 def roots_and_consts(model, q, sources, zero=()):
@@ -176,9 +177,12 @@ def r03b(ctx):
             n += 1
             tgt = ast.unparse(s.targets[0])
             v = ast.unparse(s.value)
+            rp_, cp_ = [a.arg for a in an.node.args.args][1:3]
             row_b = tgt.startswith("self.costs[0][")
-            prev_ok = ("self.costs[0][col - 1]" in v) if row_b else ("self.costs[row - 1][0]" in v)
-            if prev_ok and "edit.bounds().upper_bound" in v:
+            prev_ok = (f"self.costs[0][{cp_} - 1]" in v) if row_b else (f"self.costs[{rp_} - 1][0]" in v)
+            _cs, _cb = pat.first("self.edit_matrix[A][B] = E", an.node)
+            cellv = _cb["E"] if _cb else "edit"
+            if prev_ok and f"{cellv}.bounds().upper_bound" in v:
                 ctx.proved("R03b", an.file, "EditDistance._add_node", s, f"boundary {tgt}",
                            "boundary cell = previous boundary cell + this cell's constant edit")
             else:
@@ -245,8 +249,13 @@ def r03e(ctx):
                      "MultiSetEdit.edits yields the edges of self._matcher.matching")
     q = m.need_class("WeightedBipartiteMatcher")
     b, mt = m.method(q, "bounds"), m.method(q, "matching")
-    bt = ast.unparse(b.node).replace(" ", "")
-    ok_b = "for_,(_,edge)inself._match.items():" in bt and "lb+=edge.bounds().lower_bound" in bt and "ub+=edge.bounds().upper_bound" in bt
+    ok_b = False
+    for lp in walk_no_nested(b.node):
+        if isinstance(lp, ast.For) and ast.unparse(lp.iter).replace(" ", "") == "self._match.items()":
+            names = [x.id for x in ast.walk(lp.target) if isinstance(x, ast.Name) and x.id != "_"]
+            for e_ in names:
+                if pat.has(f"L += {e_}.bounds().lower_bound", lp, stmts=True) and pat.has(f"U += {e_}.bounds().upper_bound", lp, stmts=True):
+                    ok_b = True
     rets = [r for r in walk_no_nested(mt.node) if isinstance(r, ast.Return)]
     ok_m = rets and all(self_attr(r.value) == "_match" for r in rets)
     me = m.method(m.need_class("MultiSetEdit"), "edits")
